@@ -28,7 +28,13 @@
    (DESIGN.md section 9, O1) -- TLC finds the Q3 counterexample (SSHAuthClient_DocO1.cfg).
    FixRetry = FALSE models retryableAuthMethod.auth before the repair: it called the wrapped
    method again after a failure whatever method list came with that failure -- TLC finds the
-   Q1r counterexample (SSHAuthClient_DocRetry.cfg). *)
+   Q1r counterexample (SSHAuthClient_DocRetry.cfg).
+   FixRetryList = FALSE models retryableAuthMethod.auth as it is: it returns the method list of
+   the last call only, so when a retried publickey attempt returns no list (every query
+   rejected) the list an earlier try received with a rejected signature is lost and
+   clientAuthenticate falls back to an older one (open finding C34-R2: Q1 fails for
+   configurations with a retryable publickey entry); TRUE models a wrapper that then returns
+   the most recent list any of its tries received. *)
 EXTENDS SSHAuthObserver
 
 CONSTANTS Configs,     \* config name -> ClientConfig.Auth: sequence of [m, retry, signers]
@@ -38,8 +44,9 @@ CONSTANTS Configs,     \* config name -> ClientConfig.Auth: sequence of [m, retr
           Pre,         \* preamble items: what the server sends after the service request
           Items,       \* response items [name, pkts]
           MaxScript,
-          FixO1, FixRetry,
+          FixO1, FixRetry, FixRetryList,
           LongNames, LongPre, LongItems, LongMax,   \* configurations run against a different alphabet / bound
+          FocusNames, FocusPre, FocusItems, FocusMax,   \* a second such group (deeper scripts over a reduced alphabet)
           GridCfgNames,\* configurations run against the Go server model (the others: scripted server)
           Servers,     \* Go server configurations: name -> [algs, stages]; stages: sequence of
                        \*   [pw (accepted password, "" = no callback), kbd ("none" | "accept" | "reject"),
@@ -93,7 +100,7 @@ CanSign(s, algo) == InSeq(IF algo = "" THEN Underlying(s.fmt) ELSE Underlying(al
 (* Client state *)
 CInit == [pc |-> "start", ext |-> [present |-> FALSE, algs |-> <<>>],
           tried |-> {}, npartial |-> 0, lastM |-> Nil, cur |-> 0, res |-> "",
-          rtry |-> 0, rv |-> [ok |-> "", mk |-> FALSE, ml |-> <<>>, err |-> ""],
+          rtry |-> 0, rlast |-> Nil, rv |-> [ok |-> "", mk |-> FALSE, ml |-> <<>>, err |-> ""],
           sg |-> <<>>, idx |-> 0, pkM |-> Nil, errSig |-> FALSE, curAlgo |-> "",
           gotExt |-> FALSE, gotReq |-> FALSE]
 
@@ -202,12 +209,16 @@ Resolve(tpl, req) ==
                                    [] OTHER -> DSS]
 ResolveAll(pkts, req) == [j \in 1..Len(pkts) |-> Resolve(pkts[j], req)]
 
+MaxFor   == IF cn \in LongNames THEN LongMax ELSE IF cn \in FocusNames THEN FocusMax ELSE MaxScript
+ItemsFor == IF cn \in LongNames THEN LongItems ELSE IF cn \in FocusNames THEN FocusItems ELSE Items
+PreFor   == IF cn \in LongNames THEN LongPre ELSE IF cn \in FocusNames THEN FocusPre ELSE Pre
+
 React(e) ==
   IF srv.name # "" THEN GoReact(e)
   ELSE /\ srv' = srv
-       /\ IF dead \/ nresp >= (IF cn \in LongNames THEN LongMax ELSE MaxScript)
+       /\ IF dead \/ nresp >= MaxFor
           THEN /\ q' = q /\ UNCHANGED <<nresp, dead>> /\ chosen' = NoItem
-          ELSE \E it \in (IF cn \in LongNames THEN LongItems ELSE Items) :
+          ELSE \E it \in ItemsFor :
                  /\ chosen' = it
                  /\ nresp' = nresp + 1
                  /\ dead' = (it.name = "silent")
@@ -227,7 +238,7 @@ WService ==
   /\ LET e == EvW("service", "", FALSE, "", "", "") IN
      /\ Emit(e)
      /\ IF srv.name # "" THEN LET pk == <<PExt(SrvCfg.algs), PAccept>> IN chosen' = [name |-> "go", pkts |-> pk] /\ q' = pk
-        ELSE \E p \in (IF cn \in LongNames THEN LongPre ELSE Pre) : chosen' = p /\ q' = p.pkts
+        ELSE \E p \in PreFor : chosen' = p /\ q' = p.pkts
   /\ c' = [c EXCEPT !.pc = "pre"]
   /\ UNCHANGED <<cn, nresp, dead, srv>>
 
@@ -312,7 +323,7 @@ ReadK ==
 OBegin ==
   /\ c.pc = "obegin"
   /\ Emit(EvBegin(c.cur, FALSE, MethodName(c.cur)))
-  /\ c' = IF Retryable(c.cur) THEN [c EXCEPT !.rtry = 0, !.pc = "ibegin"] ELSE Enter(c)
+  /\ c' = IF Retryable(c.cur) THEN [c EXCEPT !.rtry = 0, !.rlast = Nil, !.pc = "ibegin"] ELSE Enter(c)
   /\ Quiet /\ UNCHANGED cn
 
 IBegin ==
@@ -325,11 +336,14 @@ IBegin ==
 IEnd ==
   /\ c.pc = "iend"
   /\ Emit(EvEnd(c.cur, TRUE, MethodName(c.cur), c.rv.ok, c.rv.err # ""))
-  /\ LET mx == Auth[c.cur].retry IN
+  /\ LET mx == Auth[c.cur].retry
+         rl == IF c.rv.mk THEN [known |-> TRUE, list |-> c.rv.ml] ELSE c.rlast      \* most recent list of any try
+         rv2 == IF FixRetryList /\ ~c.rv.mk /\ rl.known THEN [c.rv EXCEPT !.mk = TRUE, !.ml = rl.list] ELSE c.rv
+     IN
      c' = IF /\ c.rv.ok = "failure" /\ c.rv.err = "" /\ (mx <= 0 \/ c.rtry + 1 < mx)
              /\ (~FixRetry \/ ~c.rv.mk \/ InSeq(MethodName(c.cur), c.rv.ml))
-          THEN [c EXCEPT !.rtry = c.rtry + 1, !.pc = "ibegin"]
-          ELSE [c EXCEPT !.pc = "oend"]
+          THEN [c EXCEPT !.rtry = c.rtry + 1, !.rlast = rl, !.pc = "ibegin"]
+          ELSE [c EXCEPT !.rv = rv2, !.rlast = rl, !.pc = "oend"]
   /\ Quiet /\ UNCHANGED cn
 
 OEnd ==
@@ -357,6 +371,9 @@ Spec == Init /\ [][Next]_vars
 -----------------------------------------------------------------------------
 (* Properties *)
 Q1  == HoldsQ1(o)
+(* Q1 outside the configurations concerned by the open finding C34-R2 *)
+RetryPk == \E i \in 1..Len(Auth) : Auth[i].m = PK /\ Auth[i].retry >= 0
+Q1Guard == (FixRetryList \/ ~RetryPk) => Q1
 Q1b == HoldsQ1b(o)
 Q1r == HoldsQ1r(o)
 Q2  == HoldsQ2(o)
@@ -372,7 +389,7 @@ PickIsDoc == \A s \in AllSigners :
 
 (* the client's bookkeeping agrees with what the wire says (sanity of the monitor's reading) *)
 ViewsAgree == /\ c.ext = o.ext
-              /\ (c.pc = "obegin" /\ ~o.errSince /\ o.bad = {}) => (c.lastM.known = o.listKnown /\ Range(c.lastM.list) = o.list)
+              /\ (c.pc = "obegin" /\ ~o.errSince /\ o.bad = {} /\ (FixRetryList \/ ~RetryPk)) => (c.lastM.known = o.listKnown /\ Range(c.lastM.list) = o.list)
               /\ (c.pc = "wSign") => o.acc
               /\ (c.res = "success") => o.succ
 
